@@ -9,6 +9,11 @@ var checks = map[string]checkSpec{
 		Quick:     40 * time.Second, Thorough: 12 * time.Minute, Level: "exploration",
 		Rule: "Seeded runs of the real Writer+Transport against the simulated cluster: swarm configuration (brokers, partitions, produce/metadata version ceilings, batch knobs, acks, compression, balancer, sync/async), 1-4 concurrent submitters, seeded goroutine interleaving, and fault plans (error codes, lost acknowledgements, cuts inside responses, slow/stalled brokers, leader moves).",
 	},
+	"C02": {
+		Scenarios: []scnSpec{{Name: "reader", Share: 1}},
+		Quick:     45 * time.Second, Thorough: 12 * time.Minute, Level: "exploration",
+		Rule: "Seeded runs of a partition-bound Reader against a simulated partition whose physical layout is generated (formats 0/1/2, every codec, v1 wrappers with relative/absolute inner offsets, compaction holes, missing tails, retained empty batches, responses cut at the byte limit), with appends, retention, SetOffset in all modes, leader moves and network/broker faults; every delivered message is compared with the stored log and the expected position.",
+	},
 	"C07": {
 		Scenarios: []scnSpec{{Name: "writer", Params: "focus=order", Share: 1}},
 		Quick:     35 * time.Second, Thorough: 10 * time.Minute, Level: "exploration",
